@@ -15,10 +15,10 @@ var confirmedCounts = map[string]map[string][2]int{ // rule -> prop -> {default,
 	"R6":  {"C04": {9, 9}, "C16": {0, 30}, "C17": {28, 28}, "C18": {19, 44}, "C19": {19, 74}, "C20": {9, 9}},
 	"R7":  {"C17": {26, 29}, "C19": {22, 25}},
 	"R8":  {"C18": {19, 23}},
-	"R9":  {"C20": {14, 14}},
-	"R10": {"C02": {62, 71}, "C10": {62, 71}},
+	"R9":  {"C20": {15, 15}},
+	"R10": {"C02": {62, 71}, "C05": {62, 71}, "C10": {62, 71}},
 	"R11": {"C07": {10, 10}, "C08": {10, 10}},
-	"R12": {"C06": {11, 11}, "C07": {16, 17}, "C13": {5, 5}},
+	"R12": {"C06": {11, 11}, "C07": {16, 17}, "C12": {5, 5}, "C13": {5, 5}},
 	"R13": {"C01": {5, 5}, "C03": {5, 5}, "C06": {9, 9}, "C09": {9, 9}},
 	"R14": {"C01": {28, 28}, "C04": {28, 28}, "C09": {28, 28}},
 	"R15": {"C03": {4, 4}, "C04": {8, 8}, "C05": {2, 2}},
@@ -33,14 +33,16 @@ var confirmedCounts = map[string]map[string][2]int{ // rule -> prop -> {default,
 	"R24": {"C05": {4, 4}, "C06": {5, 5}, "C13": {2, 2}, "C15": {1, 3}},
 	"R25": {"C05": {10, 10}, "C06": {18, 18}, "C09": {17, 17}, "C13": {9, 9}, "C15": {1, 5}},
 	"R26": {"C02": {1, 1}, "C03": {4, 4}, "C04": {3, 3}, "C05": {5, 5}, "C06": {4, 4}, "C13": {2, 2}},
-	"R27": {"C02": {6, 6}, "C03": {2, 2}, "C04": {3, 3}, "C09": {12, 12}},
-	"R28": {"C01": {3, 3}, "C06": {7, 7}},
-	"R29": {"C01": {6, 6}, "C06": {6, 6}},
+	"R27": {"C02": {6, 6}, "C03": {2, 2}, "C04": {3, 3}, "C05": {1, 1}, "C09": {12, 12}},
+	"R28": {"C01": {3, 3}, "C06": {11, 11}, "C09": {5, 5}, "C13": {5, 5}},
+	"R29": {"C01": {7, 7}, "C02": {2, 2}, "C06": {7, 7}},
 	"R30": {"C01": {2, 2}, "C09": {2, 2}},
-	"R31": {"C01": {3, 3}, "C03": {2, 2}, "C06": {1, 1}, "C07": {3, 3}},
+	"R31": {"C01": {2, 2}, "C03": {2, 2}, "C06": {1, 1}, "C07": {3, 3}, "C12": {1, 1}},
 	"R32": {"C06": {7, 7}, "C08": {7, 7}, "C09": {7, 7}},
 	"R33": {"C02": {2, 2}, "C05": {2, 2}, "C06": {1, 1}},
 	"R34": {"C06": {2, 2}},
+	"R35": {"C12": {10, 10}, "C13": {3, 3}},
+	"R36": {"C01": {6, 6}, "C06": {6, 6}, "C07": {3, 3}, "C09": {8, 8}},
 }
 
 func floorFor(rule string) func(cfg Config, prop string) int {
